@@ -28,6 +28,9 @@ type wsEnv struct {
 	ctlFrames  int      // close / ping frames
 	writeN     int      // number of WriteMessage calls so far
 	failWrite  int      // the k-th WriteMessage fails (0 = never)
+	failCtl    bool     // every control-frame (close / ping) write fails: the transport is broken for writing when the local close starts
+	failedCtl  int      // control-frame writes that failed
+	failedData int      // data-frame writes that failed by injection
 	reports    int      // ReportConnectionError calls
 	delivered  int      // HandleIncomingWebsocketMessage calls
 	deliveredAfterClosed int
@@ -75,7 +78,16 @@ func vWriteMessage(c *websocket.Conn, messageType int, data []byte) error {
 		return errors.New("use of closed network connection")
 	}
 	if env.failWrite != 0 && env.writeN == env.failWrite {
+		if messageType == websocket.BinaryMessage {
+			env.failedData++
+		} else {
+			env.failedCtl++
+		}
 		return errors.New("write failed")
+	}
+	if env.failCtl && messageType != websocket.BinaryMessage {
+		env.failedCtl++
+		return errors.New("control frame write failed")
 	}
 	if messageType == websocket.BinaryMessage {
 		env.frames = append(env.frames, data)
